@@ -14,7 +14,7 @@ def isbad(rows, rsel, csel):
         if any(len(x)==0 for x in sel): return True
     return False
 N=0
-for it in range(60000):
+for it in range(int(__import__("os").environ.get("RECON_N", 60000))):
     rows = rand_rows()
     ra = RaggedArray(rows, dtype=np.int64)
     cur_rows = rows; cur = ra; chain=[]
